@@ -32,9 +32,22 @@ def main(argv):
         boot.import_aotools()
         mod = importlib.import_module("aomon.checks." + prop.lower())
         mod.run(ctx, spec)
-    except BaseException as e:  # harness error, not a verdict
-        status = "error"
-        err = "".join(traceback.format_exception(type(e), e, e.__traceback__))[-6000:]
+    except BaseException as e:
+        tb = traceback.extract_tb(e.__traceback__)
+        repo = os.path.realpath(boot.repo_path()) + os.sep
+        inner = tb[-1] if tb else None
+        lib_frames = [f for f in tb if os.path.realpath(f.filename).startswith(repo)]
+        text = "".join(traceback.format_exception(type(e), e, e.__traceback__))[-6000:]
+        if isinstance(e, Exception) and inner is not None and lib_frames and (
+                os.path.realpath(inner.filename).startswith(repo) or "site-packages" in inner.filename):
+            # the library itself raised on an input inside the property's quantifier: a violation, with its traceback
+            f = lib_frames[-1]
+            ctx.fail("exception_in_library:%s:%s:%s" % (os.path.basename(f.filename), f.name, type(e).__name__),
+                     "aotools raised %r at %s:%d" % (e, os.path.basename(f.filename), f.lineno), {"traceback": text[-1500:]})
+            ctx.note("shard stopped early at a library exception")
+        else:  # harness error, not a verdict
+            status = "error"
+            err = text
     reach.stop()
     res = ctx.result(reach.seen)
     res["status"] = status
